@@ -198,6 +198,52 @@ theorem parsePrivKeyPem_ne_panic (P : PemCodec) (b : Bytes) : parsePrivKeyPem P 
       · simp
       · rename_i hk; exact absurd hk (unmarshalPrivateKey_ne_panic _)
 
+theorem parsePrivKeyPem_ok_length (P : PemCodec) (b k : Bytes)
+    (h : parsePrivKeyPem P b = .ok (some k)) : k.length = 64 := by
+  unfold parsePrivKeyPem at h
+  cases hd : P.decode b with
+  | none => rw [hd] at h; simp at h
+  | some tbr =>
+    obtain ⟨t, d, r⟩ := tbr
+    rw [hd] at h
+    simp only at h
+    by_cases ht : t ≠ privPemType
+    · rw [if_pos ht] at h; cases h
+    · rw [if_neg ht] at h
+      cases hu : unmarshalPrivateKey d with
+      | ok k' =>
+        rw [hu] at h
+        simp only [Res.ok.injEq, Option.some.injEq] at h
+        subst h
+        exact unmarshalPrivateKey_ok_length _ _ hu
+      | err => rw [hu] at h; cases h
+      | panic => rw [hu] at h; cases h
+
+theorem parseKeyPem_ne_panic (P : PemCodec) (d : Bytes) : parseKeyPem P d ≠ .panic := by
+  unfold parseKeyPem
+  split
+  · simp
+  · split
+    · split
+      · rename_i k hk
+        rw [getPublic_of_length k (by have := unmarshalPrivateKey_ok_length _ _ hk; omega)]
+        simp
+      · simp
+      · rename_i hk; exact absurd hk (unmarshalPrivateKey_ne_panic _)
+    · split
+      · split
+        · simp
+        · simp
+        · rename_i hk; exact absurd hk (unmarshalPublicKeyR_ne_panic _)
+      · simp
+
+theorem parsePubKeyPem_ne_panic (P : PemCodec) (d : Bytes) : parsePubKeyPem P d ≠ .panic := by
+  unfold parsePubKeyPem
+  split
+  · simp
+  · simp
+  · rename_i hk; exact absurd hk (parseKeyPem_ne_panic P d)
+
 theorem marshalPrivateKey_ne_nil (k : Bytes) : marshalPrivateKey k ≠ [] := by
   unfold marshalPrivateKey PW.encVarintOpt
   simp [PW.encVarint_ne_nil]
